@@ -105,16 +105,16 @@ def deHelper (h : String) (ty : RTy) (j : Json) : D Val :=
 def countKey (k : String) (kvs : List (String × Json)) : Nat := (kvs.filter (·.1 == k)).length
 
 mutual
-  def deTy (e : Env) : Nat → RTy → Json → D Val
+  def deTy (e : Env) (b : Bool) : Nat → RTy → Json → D Val
     | 0, _, _ => unmodelled "fuel"
-    | fuel+1, .opt t, j => if j == .null then pure .unit else Val.some <$> deTy e fuel t j
+    | fuel+1, .opt t, j => if j == .null then pure .unit else Val.some <$> deTy e b fuel t j
     | fuel+1, .vec t, j => match j with
-      | .arr xs => Val.list <$> xs.mapM (deTy e fuel t)
+      | .arr xs => Val.list <$> xs.mapM (deTy e b fuel t)
       | _ => bad "expected a sequence"
-    | fuel+1, .box t, j => deTy e fuel t j
-    | fuel+1, .path p, j => dePath e fuel p j
+    | fuel+1, .box t, j => deTy e b fuel t j
+    | fuel+1, .path p, j => dePath e b fuel p j
 
-  def dePath (e : Env) : Nat → String → Json → D Val
+  def dePath (e : Env) (b : Bool) : Nat → String → Json → D Val
     | 0, _, _ => unmodelled "fuel"
     | fuel+1, p, j =>
       if p == "String" then (match j with | .str s => pure (.str s) | _ => bad "expected a string")
@@ -127,11 +127,11 @@ mutual
         | _ => bad "expected a number")
       else if p == "bool" then (match j with | .bool b => pure (.bool b) | _ => bad "expected a boolean")
       else match e.find p with
-        | some (.alias _ _ t) => deTy e fuel t j
-        | some (.struct _ _ _ fields) => deStruct e fuel fields j
+        | some (.alias _ _ t) => deTy e b fuel t j
+        | some (.struct _ _ _ fields) => deStruct e b fuel fields j
         | some (.unitStruct ..) => if j == .null then pure .unit else bad "expected unit"
         | some (.tagged _ _ _ tag vs) => (match j with
-          | .obj kvs => deTagged e fuel tag vs kvs
+          | .obj kvs => deTagged e b fuel tag vs kvs
           | .arr _ => unmodelled "internally tagged enum from a sequence"
           | _ => bad "expected a map for an internally tagged enum")
         | some (.gqlEnum _ _ _ _ _ de) => (match j with
@@ -142,31 +142,31 @@ mutual
         | some (.oneOf _ _ _ vs) => (match j with
           | .obj [(k, v)] => match vs.find? (·.wire == k) with
             | some var => (match var.payload with
-              | some t => (fun x => Val.variant var.name (some x)) <$> deTy e fuel t v
+              | some t => (fun x => Val.variant var.name (some x)) <$> deTy e b fuel t v
               | none => unmodelled "unit @oneOf variant")
             | none => bad "unknown variant"
           | _ => bad "expected a map with a single key")
         | some (.defaults _) => unmodelled "impl"
         | none => match e.externs.find? (·.1 == p) with
-          | some (_, t) => deTy e fuel t j
+          | some (_, t) => deTy e b fuel t j
           | none => unmodelled ("type " ++ p)
 
-  def deField (e : Env) : Nat → RField → Json → D Val
+  def deField (e : Env) (b : Bool) : Nat → RField → Json → D Val
     | 0, _, _ => unmodelled "fuel"
     | fuel+1, f, j => match f.deserWith with
       | some h => deHelper h f.ty j
-      | none => deTy e fuel f.ty j
+      | none => deTy e b fuel f.ty j
 
   /-- own (non-flattened) fields of a struct from the entries that carry their keys -/
-  def deOwn (e : Env) : Nat → List RField → List (String × Json) → D (List (String × Val))
+  def deOwn (e : Env) (b : Bool) : Nat → List RField → List (String × Json) → D (List (String × Val))
     | 0, _, _ => unmodelled "fuel"
     | _, [], _ => pure []
     | fuel+1, f :: fs, kvs => do
-      let rest ← deOwn e fuel fs kvs
+      let rest ← deOwn e b fuel fs kvs
       if f.flatten then pure rest else
       if countKey f.wire kvs > 1 then bad ("duplicate field " ++ f.wire) else
       match Json.lookup f.wire kvs with
-      | some j => do pure ((f.rust, ← deField e fuel f j) :: rest)
+      | some j => do pure ((f.rust, ← deField e b fuel f j) :: rest)
       | none =>
         if f.default then pure ((f.rust, .unit) :: rest)
         else if f.deserWith.isSome then bad ("missing field " ++ f.wire)
@@ -193,24 +193,24 @@ mutual
       | some (.struct _ _ _ fields) =>
         if fields.any (·.flatten) then do
           -- `deserialize_map`: sees every remaining entry, takes none
-          let v ← deStructMap e fuel fields (present buf)
+          let v ← deStructMap e true fuel fields (present buf)
           pure (v, buf)
         else do
           -- `deserialize_struct`: takes the entries it recognises
           let (taken, buf') := takeKeys (fields.map (·.wire)) buf
-          let own ← deOwn e fuel fields taken
+          let own ← deOwn e true fuel fields taken
           pure (.record own, buf')
       | some (.tagged _ _ _ tag vs) => do
-        let v ← deTagged e fuel tag vs (present buf)
+        let v ← deTagged e true fuel tag vs (present buf)
         pure (v, buf)
       | _ => unmodelled ("flatten of " ++ p)
     | _+1, _, _ => unmodelled "flatten of a non-struct type"
 
   /-- struct read from a map (`visit_map`): own keys first, the rest buffered for flattened members -/
-  def deStructMap (e : Env) : Nat → List RField → List (String × Json) → D Val
+  def deStructMap (e : Env) (b : Bool) : Nat → List RField → List (String × Json) → D Val
     | 0, _, _ => unmodelled "fuel"
     | fuel+1, fields, kvs => do
-      let own ← deOwn e fuel fields kvs
+      let own ← deOwn e b fuel fields kvs
       if fields.any (·.flatten) then
         let ownKeys := (fields.filter (!·.flatten)).map (·.wire)
         let buf : Buf := (kvs.filter (fun kv => !ownKeys.contains kv.1)).map some
@@ -219,35 +219,49 @@ mutual
         pure (.record (fields.filterMap fun f => (own ++ fl).find? (·.1 == f.rust)))
       else pure (.record own)
 
-  def deStruct (e : Env) : Nat → List RField → Json → D Val
+  def deStruct (e : Env) (b : Bool) : Nat → List RField → Json → D Val
     | 0, _, _ => unmodelled "fuel"
     | fuel+1, fields, j => match j with
-      | .obj kvs => deStructMap e fuel fields kvs
+      | .obj kvs => deStructMap e b fuel fields kvs
       | .arr xs =>
         if fields.any (·.flatten) then bad "expected a map" else
         -- `visit_seq`: positional, every field must be present
         if xs.length < fields.length then bad "invalid length" else
-        (fun vs => Val.record vs) <$> (fields.zip xs).mapM (fun (f, x) => do pure (f.rust, ← deField e fuel f x))
+        (fun vs => Val.record vs) <$> (fields.zip xs).mapM (fun (f, x) => do pure (f.rust, ← deField e b fuel f x))
       | _ => bad "expected a struct"
 
   /-- internally tagged enum from map entries -/
-  def deTagged (e : Env) : Nat → String → List RVariant → List (String × Json) → D Val
+  def deTagged (e : Env) (b : Bool) : Nat → String → List RVariant → List (String × Json) → D Val
     | 0, _, _, _ => unmodelled "fuel"
     | fuel+1, tag, vs, kvs =>
       match countKey tag kvs with
       | 0 => bad ("missing field " ++ tag)
       | 1 =>
+        let rest := kvs.filter (·.1 != tag)
+        let pick (v : RVariant) : D Val :=
+          if v.other then pure (.variant v.name none) else
+          match v.payload with
+          | none => pure (.variant v.name none)
+          | some t => (fun x => Val.variant v.name (some x)) <$> deTy e true fuel t (.obj rest)
         match Json.lookup tag kvs with
         | some (.str name) =>
-          let rest := kvs.filter (·.1 != tag)
           match vs.find? (fun v => !v.other && v.wire == name) with
-          | some v => (match v.payload with
-            | none => pure (.variant v.name none)
-            | some t => (fun x => Val.variant v.name (some x)) <$> deTy e fuel t (.obj rest))
+          | some v => pick v
           | none => match vs.find? (·.other) with
             | some o => pure (.variant o.name none)
             | none => bad "unknown variant"
-        | _ => bad "tag is not a string"
+        | some (.int n) =>
+          -- from buffered content (`ContentDeserializer::deserialize_identifier`) serde's variant
+          -- identifier also accepts the variant *index* (`visit_u64`); serde_json's own
+          -- `deserialize_identifier` only accepts strings
+          if !b then bad "tag is not a string" else
+          if n < 0 then bad "tag is a negative integer" else
+          match vs[n.toNat]? with
+          | some v => pick v
+          | none => match vs.find? (·.other) with
+            | some o => pure (.variant o.name none)
+            | none => bad "variant index out of range"
+        | _ => bad "tag is neither a string nor an index"
       | _ => bad ("duplicate field " ++ tag)
 end
 
@@ -275,7 +289,8 @@ def itemWidth : Item → Nat
 def deFuel (e : Env) (j : Json) : Nat :=
   (jsonSize j + e.items.length + 8) * ((e.items.map itemWidth).foldl max 4 + 4)
 
-def de (e : Env) (t : RTy) (j : Json) : D Val := deTy e (deFuel e j) t j
+/-- top level: read directly from the JSON text (not from buffered content) -/
+def de (e : Env) (t : RTy) (j : Json) : D Val := deTy e false (deFuel e j) t j
 
 /-! ### serialization -/
 
